@@ -68,24 +68,59 @@ def check_not_found(chk, prog, fns):
                     if d.get("init") is not None and X.strip(d["init"]).get("k") == "call" and X.callee_name(X.strip(d["init"])) in ("strstr", "strchr", "strrchr", "index", "rindex", "memmem", "memchr"):
                         res_locals.add("d%d" % d["d"])
 
-        def is_len(v):
+        def is_len(v, pidx=0):
             v = X.strip(v)
-            return v is not None and v.get("k") == "member" and v.get("n") == "len" and X.strip(v["ch"][0]).get("pi") == 0
+            return v is not None and v.get("k") == "member" and v.get("n") == "len" and X.strip(v["ch"][0]).get("pi") == pidx
+
+        def helper_returns_len(g, j_null, k_self):
+            """does the unit-local helper g return <param k_self>->len on every return reachable with <param j_null> NULL?"""
+            if g is None or g.body is None or g.cfg is None or j_null >= len(g.params) or k_self >= len(g.params):
+                return False
+            gcfg = nullness.prepared_cfg(g, NORETURN)
+            rets = []
+
+            def gv(state, nd, blk):
+                if nd.get("k") == "return" and nd.get("val") is not None:
+                    rets.append(is_len(nullness.resolve_conditional(nd["val"], state), k_self))
+            flow.forward(gcfg, frozenset({("null", "d%d" % g.params[j_null]["d"])}), nullness.transfer, refine=nullness.refine, visit=gv)
+            return bool(rets) and all(rets)
+        search_ids = {id(X.strip(s_)) for s_ in searches}
+
+        def transfer(state, nd, blk):
+            # the scenario "the search finds nothing": its result is NULL wherever it is stored; a local given self->len holds it
+            st = nullness.transfer(state, nd, blk)
+            pairs = []
+            if nd.get("k") == "assign" and nd.get("op") == "=":
+                l_ = X.strip(nd["ch"][0])
+                if l_ is not None and l_.get("k") == "ref" and l_.get("rk") == "local":
+                    pairs.append((l_["d"], nd["ch"][1]))
+            if nd.get("k") == "decl":
+                pairs += [(dc["d"], dc["init"]) for dc in nd.get("decls", ()) if dc.get("init") is not None]
+            for d_, rhs_ in pairs:
+                st = frozenset(x for x in st if x != ("islen", d_))
+                r_ = X.strip(rhs_)
+                if r_ is not None and id(r_) in search_ids:
+                    st = frozenset(x for x in st if not (x[0] in ("nn", "null") and x[1] == "d%d" % d_)) | {("null", "d%d" % d_)}
+                elif is_len(nullness.resolve_conditional(rhs_, st)):
+                    st = st | {("islen", d_)}
+            return st
 
         def visit(state, nd, blk):
-            if nd.get("k") == "return" and nd.get("val") is not None:
-                if any(("null", p) in state for p in res_locals):
-                    (good if is_len(nullness.resolve_conditional(nd["val"], state)) else bad).append(nd)
-                elif X.strip(nd["val"]).get("k") == "cond":
-                    # return (hit ? index : self->len): the arm taken when the search result is NULL
-                    for p in res_locals:
-                        if ("nn", p) in state:
-                            continue
-                        st2 = frozenset(set(state) | {("null", p)})
-                        v2 = nullness.resolve_conditional(nd["val"], st2)
-                        if v2 is not nd["val"]:
-                            (good if is_len(v2) else bad).append(nd)
-        flow.forward(cfg, frozenset(), nullness.transfer, refine=nullness.refine, visit=visit)
+            if nd.get("k") == "return" and nd.get("val") is not None and any(("null", p) in state for p in res_locals):
+                v2 = nullness.resolve_conditional(nd["val"], state)
+                s2 = X.strip(v2)
+                okv = is_len(v2)
+                if not okv and s2 is not None and s2.get("k") == "ref" and ("islen", s2.get("d")) in state:
+                    okv = True
+                if not okv and s2 is not None and s2.get("k") == "call":
+                    g_ = f.unit.functions.get(X.callee_name(s2) or "")
+                    args_ = s2["ch"][1:]
+                    jn = [i_ for i_, a_ in enumerate(args_) if (X.strip(a_) or {}).get("k") == "ref" and ("null", "d%d" % X.strip(a_).get("d")) in state]
+                    ks = [i_ for i_, a_ in enumerate(args_) if (X.strip(a_) or {}).get("k") == "ref" and X.strip(a_).get("pi") == 0 and X.strip(a_).get("rk") == "param"]
+                    if g_ is not None and jn and ks:
+                        okv = helper_returns_len(g_, jn[0], ks[0])
+                (good if okv else bad).append(nd)
+        flow.forward(cfg, frozenset(), transfer, refine=nullness.refine, visit=visit)
         ok = bool(good) and not bad
         chk.ob("B2", f.name, "not-found-returns-len", ok, loc=f.loc(bad[0]) if bad else f.loc(f.body),
                detail="%s: when the search finds nothing it returns %s instead of the length" % (f.name, X.render(bad[0]["val"])[:40] if bad else "nothing recognisable"),
